@@ -93,6 +93,14 @@ func (m *mirrorer) render(e ast.Expr, mirror bool) string {
 		if fn == "min" || fn == "max" {
 			sort.Strings(args)
 		}
+		// |a-b| is symmetric in a and b
+		if (fn == "Abs" || strings.HasSuffix(fn, ".Abs")) && len(x.Args) == 1 {
+			if d, ok := ast.Unparen(x.Args[0]).(*ast.BinaryExpr); ok && d.Op == token.SUB {
+				parts := []string{m.render(d.X, mirror), m.render(d.Y, mirror)}
+				sort.Strings(parts)
+				return fn + "(" + parts[0] + "~" + parts[1] + ")"
+			}
+		}
 		return fn + "(" + strings.Join(args, ",") + ")"
 	case *ast.IndexExpr:
 		return m.render(x.X, mirror) + "[" + m.render(x.Index, mirror) + "]"
@@ -562,28 +570,79 @@ func c17R3(c *Ctx, p *Prog) {
 				flipConds[is.Cond] = true
 				ord++
 				key := fmt.Sprintf("%s#flip@%d", name, ord)
-				okFlip := is.Else == nil && is.Init == nil && len(is.Body.List) == 1
-				desc := ""
-				if okFlip {
-					as, ok := is.Body.List[0].(*ast.AssignStmt)
-					okFlip = ok && len(as.Lhs) == 1 && len(as.Rhs) == 1
-					if okFlip {
-						k, isc := constInt(info, as.Rhs[0])
-						switch {
-						case as.Tok == token.XOR_ASSIGN && isc && (k == 56 || k == 7):
-							desc = fmt.Sprintf("^= %d (an involution)", k)
-						case as.Tok == token.ADD_ASSIGN && isc && k == 56:
-							desc = "+= 56 (file index to the promotion square)"
-						default:
-							okFlip = false
+				// one statement flipping a square/rank for exactly one colour; an else branch may only pass the value on unflipped
+				flipOf := func(e ast.Expr) (string, ast.Expr, bool) {
+					be, ok := ast.Unparen(e).(*ast.BinaryExpr)
+					if !ok {
+						return "", nil, false
+					}
+					for _, pr := range [][2]ast.Expr{{be.X, be.Y}, {be.Y, be.X}} {
+						if k, isc := constInt(info, pr[1]); isc {
+							switch {
+							case be.Op == token.XOR && (k == 56 || k == 7):
+								return fmt.Sprintf("^ %d (an involution)", k), pr[0], true
+							case be.Op == token.ADD && k == 56:
+								return "+ 56 (file index to the promotion square)", pr[0], true
+							}
 						}
+					}
+					if k, isc := constInt(info, be.X); isc && be.Op == token.SUB && (k == 7 || k == 63) {
+						return fmt.Sprintf("%d - x (an involution)", k), be.Y, true
+					}
+					return "", nil, false
+				}
+				okFlip := is.Init == nil && len(is.Body.List) == 1
+				desc := ""
+				var flipped ast.Expr
+				if okFlip {
+					switch st := is.Body.List[0].(type) {
+					case *ast.AssignStmt:
+						okFlip = len(st.Lhs) == 1 && len(st.Rhs) == 1
+						if okFlip {
+							k, isc := constInt(info, st.Rhs[0])
+							switch {
+							case st.Tok == token.XOR_ASSIGN && isc && (k == 56 || k == 7):
+								desc, flipped = fmt.Sprintf("^= %d (an involution)", k), st.Lhs[0]
+							case st.Tok == token.ADD_ASSIGN && isc && k == 56:
+								desc, flipped = "+= 56 (file index to the promotion square)", st.Lhs[0]
+							case st.Tok == token.ASSIGN || st.Tok == token.DEFINE:
+								desc, flipped, okFlip = flipOf(st.Rhs[0])
+							default:
+								okFlip = false
+							}
+						}
+					case *ast.ReturnStmt:
+						okFlip = len(st.Results) == 1
+						if okFlip {
+							desc, flipped, okFlip = flipOf(st.Results[0])
+						}
+					default:
+						okFlip = false
+					}
+				}
+				if okFlip && is.Else != nil {
+					eb, isBlock := is.Else.(*ast.BlockStmt)
+					okFlip = isBlock && len(eb.List) == 1
+					if okFlip {
+						var plain ast.Expr
+						switch st := eb.List[0].(type) {
+						case *ast.AssignStmt:
+							if len(st.Rhs) == 1 && (st.Tok == token.ASSIGN || st.Tok == token.DEFINE) {
+								plain = st.Rhs[0]
+							}
+						case *ast.ReturnStmt:
+							if len(st.Results) == 1 {
+								plain = st.Results[0]
+							}
+						}
+						okFlip = plain != nil && flipped != nil && types.ExprString(ast.Unparen(plain)) == types.ExprString(ast.Unparen(flipped))
 					}
 				}
 				if okFlip {
 					nFlips++
 					c.Ok(rule, key, is.Pos(), "colour test guards a perspective flip %s applied to exactly one colour", desc)
 				} else {
-					c.Undec(rule, key, is.Pos(), "a comparison of the colour variable with a colour constant guards something other than a recognised perspective flip (^= 56, ^= 7, += 56): colour-specific logic inside colour-generic code")
+					c.Undec(rule, key, is.Pos(), "a comparison of the colour variable with a colour constant guards something other than a recognised perspective flip (^ 56, ^ 7, + 56, 7 - x): colour-specific logic inside colour-generic code")
 				}
 				return true
 			})
@@ -617,7 +676,223 @@ func c17R3(c *Ctx, p *Prog) {
 			})
 		}
 	}
-	c.Floor(rule, nFlips, 4, "perspective flips")
+	c.Floor(rule, nFlips, 1, "perspective flips")
+	c17TableFlips(c, p, rule)
+}
+
+// c17TableFlips: a coefficient table is stored from one colour's point of view. Wherever colour-generic code
+// indexes such a table with something computed from a square (the square itself, its rank — not its file),
+// the index must pass through a flip that is applied for one colour only; otherwise one colour reads the
+// table upside down. Tables that carry their own colour dimension are exempt.
+func c17TableFlips(c *Ctx, p *Prog, rule string) {
+	isNamed := func(t types.Type, name string) bool {
+		n, ok := types.Unalias(t).(*types.Named)
+		return ok && n.Obj().Name() == name
+	}
+	colourCond := func(b *ssa.BasicBlock) bool {
+		for _, ce := range controllingConds(b) {
+			if bo, ok := ce.Cond.(*ssa.BinOp); ok && (isNamed(bo.X.Type(), "Color") || isNamed(bo.Y.Type(), "Color")) {
+				return true
+			}
+		}
+		return false
+	}
+	type flags struct{ square, flip, opaque bool }
+	var walk func(root *ssa.Function, v ssa.Value, fl *flags, seen map[ssa.Value]bool, depth int)
+	walk = func(root *ssa.Function, v ssa.Value, fl *flags, seen map[ssa.Value]bool, depth int) {
+		if v == nil || seen[v] || depth > 60 {
+			return
+		}
+		seen[v] = true
+		// only index arithmetic on squares/coordinates is followed: a bitboard built from a square
+		// (masks, attack sets, popcounts) has no orientation of its own
+		if isNamed(v.Type(), "BitBoard") {
+			return
+		}
+		if isNamed(v.Type(), "Square") {
+			if _, isC := v.(*ssa.Const); !isC {
+				fl.square = true
+			}
+		}
+		switch x := v.(type) {
+		case *ssa.BinOp:
+			kx, cx := constOf(x.X)
+			ky, cy := constOf(x.Y)
+			// file of a square: colour-neutral
+			if cy && ((x.Op == token.REM && ky == 8) || (x.Op == token.AND && ky == 7)) {
+				return
+			}
+			isFlip := false
+			switch {
+			case x.Op == token.XOR && ((cy && (ky == 56 || ky == 7)) || (cx && (kx == 56 || kx == 7))):
+				isFlip = true
+			case x.Op == token.ADD && ((cy && ky == 56) || (cx && kx == 56)):
+				isFlip = true
+			case x.Op == token.SUB && cx && (kx == 7 || kx == 63):
+				isFlip = true
+			case x.Op == token.XOR && !cx && !cy:
+				// sq ^ mask(colour)
+				for _, o := range []ssa.Value{x.X, x.Y} {
+					for w := range backSlice(o, sliceOpts{ThroughCalls: true, ThroughLoads: true}) {
+						if isNamed(w.Type(), "Color") {
+							isFlip = true
+						}
+					}
+				}
+				if isFlip {
+					fl.flip = true
+				}
+				isFlip = false
+			}
+			if isFlip && colourCond(x.Block()) {
+				fl.flip = true
+			}
+			walk(root, x.X, fl, seen, depth+1)
+			walk(root, x.Y, fl, seen, depth+1)
+		case *ssa.Phi:
+			for _, e := range x.Edges {
+				walk(root, e, fl, seen, depth+1)
+			}
+		case *ssa.Convert:
+			walk(root, x.X, fl, seen, depth+1)
+		case *ssa.ChangeType:
+			walk(root, x.X, fl, seen, depth+1)
+		case *ssa.Call:
+			callee := x.Call.StaticCallee()
+			if !isNamed(x.Type(), "Square") && !isNamed(x.Type(), "Coord") {
+				return
+			}
+			if callee != nil && isOwn(callee) && callee.Blocks != nil && relPkg(fnPkgPath(callee)) == "eval" {
+				// what the helper returns, with its parameters bound to this call's arguments
+				allInstrs(callee, func(in ssa.Instruction) {
+					if ret, ok := in.(*ssa.Return); ok {
+						for i := range ret.Results {
+							walk(root, returnedValue(ret, i), fl, seen, depth+1)
+						}
+					}
+				})
+			}
+			for _, a := range x.Call.Args {
+				walk(root, a, fl, seen, depth+1)
+			}
+		case *ssa.Parameter:
+			if x.Parent() != root {
+				return // bound by the call we came through (its arguments are walked there)
+			}
+			if !isNamed(x.Type(), "Square") && !isNamed(x.Type(), "Coord") {
+				return
+			}
+			// the analysed function's own square parameter: each caller may have flipped it
+			idx := -1
+			for i, q := range root.Params {
+				if q == x {
+					idx = i
+				}
+			}
+			sites, flippedSites := 0, 0
+			for _, caller := range p.OwnFuncs() {
+				allInstrs(caller, func(in ssa.Instruction) {
+					ci, ok := in.(ssa.CallInstruction)
+					if !ok || idx >= len(ci.Common().Args) {
+						return
+					}
+					cal := ci.Common().StaticCallee()
+					if cal == nil || (cal != root && (cal.Origin() == nil || cal.Origin() != root.Origin() || root.Origin() == nil)) {
+						return
+					}
+					if depth > 20 {
+						fl.opaque = true
+						return
+					}
+					sites++
+					sub := &flags{}
+					walk(caller, ci.Common().Args[idx], sub, map[ssa.Value]bool{}, depth+10)
+					if sub.flip {
+						flippedSites++
+					}
+					if sub.opaque {
+						fl.opaque = true
+					}
+				})
+			}
+			if sites > 0 && sites == flippedSites {
+				fl.flip = true
+			}
+		}
+	}
+	done := map[string]bool{}
+	n := 0
+	for _, fn := range p.OwnFuncs() {
+		if relPkg(fnPkgPath(fn)) != "eval" || strings.Contains(fn.Synthetic, "wrapper") || fn.Blocks == nil {
+			continue
+		}
+		if strings.HasSuffix(p.Fset.Position(fn.Pos()).Filename, "coeffs.go") {
+			continue
+		}
+		ord := map[string]int{}
+		allInstrs(fn, func(in ssa.Instruction) {
+			ia, ok := in.(*ssa.IndexAddr)
+			if !ok {
+				return
+			}
+			// outermost index of a chain only
+			if ia.Referrers() != nil {
+				for _, r := range *ia.Referrers() {
+					if ia2, ok := r.(*ssa.IndexAddr); ok && ia2.X == ssa.Value(ia) {
+						return
+					}
+				}
+			}
+			var idxs []ssa.Value
+			var base ssa.Value = ia
+			field := ""
+			for {
+				x, ok := base.(*ssa.IndexAddr)
+				if !ok {
+					break
+				}
+				idxs = append(idxs, x.Index)
+				base = x.X
+			}
+			fr, ok := asFieldAddr(base)
+			if !ok || !strings.HasPrefix(fr.Name(), "CoeffSet.") {
+				return
+			}
+			field = fr.Field.Name()
+			ord[field]++
+			origin := fnName(fn)
+			if o := fn.Origin(); o != nil {
+				origin = fnName(o)
+			}
+			key := fmt.Sprintf("%s#table:%s@%d", origin, field, ord[field])
+			if done[key] {
+				return
+			}
+			for _, ix := range idxs {
+				if isNamed(ix.Type(), "Color") {
+					return // the table has its own colour dimension
+				}
+			}
+			fl := &flags{}
+			for _, ix := range idxs {
+				walk(fn, ix, fl, map[ssa.Value]bool{}, 0)
+			}
+			if !fl.square {
+				return
+			}
+			done[key] = true
+			n++
+			switch {
+			case fl.flip:
+				c.Ok(rule, key, ia.Pos(), "the square-derived index into %s passes through a flip applied for one colour only", field)
+			case fl.opaque:
+				c.Undec(rule, key, ia.Pos(), "the square-derived index into %s comes through call chains too deep to follow", field)
+			default:
+				c.Fail(rule, key, ia.Pos(), "the coefficient table %s is indexed by a value computed from a square (not only its file) that is never flipped for one colour: White and Black read the table from the same side, so a position and its mirror image are scored differently", field)
+			}
+		})
+	}
+	c.Floor(rule+".tables", n, 2, "square-indexed coefficient table lookups in colour-generic code")
 }
 
 // ---- R4: final combination ----
@@ -716,6 +991,12 @@ func init() {
 		Mutant{Name: "C17.R2-lazy-exit-one-sided", Prop: "C17", File: "eval/eval.go",
 			Old: "\tsp.addTempo(b, c)\n\tsp.addBishopPair(b, c)\n", New: "\tsp.addTempo(b, c)\n\tsp.addBishopPair(b, c)\n\n\tif sp.eg[White] > sp.eg[Black]+2500 || sp.eg[Black] > sp.eg[Black]+2500 {\n\t\treturn sp.taperedScore(b)\n\t}\n",
 			Expect: "C17.R2/eval.Eval#both-colours"},
+		Mutant{Name: "C17.R5-connected-rooks-from-lowest-rook", Prop: "C17", File: "eval/eval.go", Quick: true,
+			Old: "\tif attacks&b.Pieces[Rook]&b.Colors[color] != 0 {\n\t\tsp.mg[color] += c.ConnectedRooks[0]\n\t\tsp.eg[color] += c.ConnectedRooks[1]\n", New: "\trooks := b.Pieces[Rook] & b.Colors[color]\n\tif sq == rooks.LowestSet() && attacks&rooks != 0 {\n\t\tsp.mg[color] += 2 * c.ConnectedRooks[0]\n\t\tsp.eg[color] += 2 * c.ConnectedRooks[1]\n",
+			Expect: "C17.R5/eval.(*scorePair).addRookMobility#scan"},
+		Mutant{Name: "C17.R5-sole-passer-test-dropped", Prop: "C17", File: "eval/eval.go",
+			Old: "if passers != 0 && passers&(passers-1) == 0 {", New: "if passers != 0 {",
+			Expect: "C17.R5/eval.(*scorePair).addPassers#scan"},
 		Mutant{Name: "C17.R3-psqt-flipped-for-both", Prop: "C17", File: "eval/eval.go", Quick: true,
 			Old: "\tif color == White {\n\t\tsq ^= 56 // upside down\n\t}\n", New: "\tsq ^= 56 // upside down\n",
 			Expect: "C17.R3/eval.(*scorePair).addPSqT#unguarded-flip"},
@@ -724,7 +1005,7 @@ func init() {
 			Expect: "C17.R3/eval.(*scorePair).addPassers#flip"},
 		Mutant{Name: "C17.R3-outpost-flip-removed", Prop: "C17", File: "eval/eval.go",
 			Old: "\t\tif color == White {\n\t\t\tsq ^= 56\n\t\t}\n\t\tsp.mg[color] += c.KnightOutpost[0][sq]", New: "\t\tsp.mg[color] += c.KnightOutpost[0][sq]",
-			Expect: "C17.R3/floor"},
+			Expect: "C17.R3/eval.(*scorePair).addKnightOutposts#table:KnightOutpost"},
 		Mutant{Name: "C17.R3-colour-specific-bonus-in-loop", Prop: "C17", File: "eval/eval.go",
 			Old: "\t\t// technically FEN allows more than 8 pawns\n", New: "\t\tif color == White {\n\t\t\tmyPawnCnt++\n\t\t}\n\t\t// technically FEN allows more than 8 pawns\n",
 			Expect: "C17.R3/eval.(*scorePair).addBishopPair#flip"},
@@ -735,4 +1016,229 @@ func init() {
 			Old: "sp.mg[b.STM] += c.TempoBonus[0]", New: "sp.mg[White] += c.TempoBonus[0]",
 			Expect: "C17.R4/eval.(*scorePair).addTempo#tempo-to-mover"},
 	)
+}
+
+// ---- R5: bit-scan order must not leak into the score ----
+//
+// LowestSet picks the piece on the lowest square index. Mirroring the board reverses the rank order,
+// so which of several pieces is "lowest" differs between a position and its mirror image. Colour-generic
+// evaluation code may therefore use a bit scan only (a) inside a loop that strips the scanned bit and
+// runs until the set is empty (every piece is visited, the sum does not depend on the order), or (b) on
+// a set known to hold exactly one bit (a king, an isolated bit, a set tested with IsPow2 / x&(x-1)==0).
+func c17R5(c *Ctx, p *Prog) {
+	const rule = "C17.R5"
+	pcs := pieceConsts(p)
+	isNamed := func(t types.Type, name string) bool {
+		n, ok := types.Unalias(t).(*types.Named)
+		return ok && n.Obj().Name() == name
+	}
+	isIsolate := func(v ssa.Value) (ssa.Value, bool) {
+		bo, ok := stripConv(v).(*ssa.BinOp)
+		if !ok || bo.Op != token.AND {
+			return nil, false
+		}
+		for _, pr := range [][2]ssa.Value{{bo.X, bo.Y}, {bo.Y, bo.X}} {
+			if neg, ok := stripConv(pr[1]).(*ssa.UnOp); ok && neg.Op == token.SUB && sameValue(neg.X, pr[0], 0) {
+				return pr[0], true
+			}
+		}
+		return nil, false
+	}
+	isStrip := func(e ssa.Value, x ssa.Value) bool {
+		// x & (x-1)
+		bo, ok := stripConv(e).(*ssa.BinOp)
+		if !ok {
+			return false
+		}
+		if bo.Op == token.AND {
+			for _, pr := range [][2]ssa.Value{{bo.X, bo.Y}, {bo.Y, bo.X}} {
+				if stripConv(pr[0]) != x {
+					continue
+				}
+				if sub, ok := stripConv(pr[1]).(*ssa.BinOp); ok && sub.Op == token.SUB && stripConv(sub.X) == x {
+					if k, isc := constOf(sub.Y); isc && k == 1 {
+						return true
+					}
+				}
+			}
+		}
+		// x &^ (x & -x), x ^ (x & -x)
+		if (bo.Op == token.AND_NOT || bo.Op == token.XOR) && stripConv(bo.X) == x {
+			if of, ok := isIsolate(bo.Y); ok && stripConv(of) == x {
+				return true
+			}
+		}
+		return false
+	}
+	singleBit := func(x ssa.Value, at *ssa.BasicBlock) bool {
+		x = stripConv(x)
+		if _, ok := isIsolate(x); ok {
+			return true
+		}
+		// the king set of one colour
+		var leaves []ssa.Value
+		flattenAnd(x, &leaves)
+		for _, lf := range leaves {
+			if n, ok := piecesLoadKind(stripConv(lf), pcs); ok && n == "King" {
+				return true
+			}
+		}
+		for _, ce := range controllingConds(at) {
+			if !ce.True {
+				continue
+			}
+			if call, ok := ce.Cond.(*ssa.Call); ok && objName(calleeObj(call)) == "chess.(BitBoard).IsPow2" && sameValue(call.Call.Args[0], x, 0) {
+				return true
+			}
+			// x & (x-1) == 0
+			if bo, ok := ce.Cond.(*ssa.BinOp); ok && bo.Op == token.EQL {
+				if k, isc := constOf(bo.Y); isc && k == 0 && isStrip(bo.X, x) {
+					return true
+				}
+			}
+		}
+		// x&(x-1) != 0 false edge
+		for _, ce := range controllingConds(at) {
+			if bo, ok := ce.Cond.(*ssa.BinOp); ok && bo.Op == token.NEQ && !ce.True {
+				if k, isc := constOf(bo.Y); isc && k == 0 && isStrip(bo.X, x) {
+					return true
+				}
+			}
+		}
+		return false
+	}
+	colourCond := func(b *ssa.BasicBlock) bool {
+		for _, ce := range controllingConds(b) {
+			if bo, ok := ce.Cond.(*ssa.BinOp); ok && (isNamed(bo.X.Type(), "Color") || isNamed(bo.Y.Type(), "Color")) {
+				if _, isC := bo.Y.(*ssa.Const); isC {
+					return true
+				}
+				if _, isC := bo.X.(*ssa.Const); isC {
+					return true
+				}
+			}
+		}
+		return false
+	}
+	// guarded entry: a function all of whose call sites run under guard() == true
+	guardedBy := func(fn *ssa.Function, guard string) bool {
+		sites, ok := 0, true
+		for _, caller := range p.OwnFuncs() {
+			allInstrs(caller, func(in ssa.Instruction) {
+				ci, isCall := in.(ssa.CallInstruction)
+				if !isCall {
+					return
+				}
+				cal := ci.Common().StaticCallee()
+				if cal == nil {
+					return
+				}
+				root := func(f *ssa.Function) *ssa.Function {
+					if o := f.Origin(); o != nil {
+						return o
+					}
+					return f
+				}
+				if root(cal) != root(fn) {
+					return
+				}
+				if strings.Contains(caller.Synthetic, "wrapper") {
+					return
+				}
+				sites++
+				g := false
+				for _, ce := range controllingConds(in.Block()) {
+					if call, isC := ce.Cond.(*ssa.Call); isC && ce.True && objName(calleeObj(call)) == guard {
+						g = true
+					}
+				}
+				if !g {
+					ok = false
+				}
+			})
+		}
+		return ok && sites > 0
+	}
+	n := 0
+	done := map[string]bool{}
+	for _, fn := range p.OwnFuncs() {
+		if relPkg(fnPkgPath(fn)) != "eval" || strings.Contains(fn.Synthetic, "wrapper") || fn.Blocks == nil {
+			continue
+		}
+		origin := fnName(fn)
+		if o := fn.Origin(); o != nil {
+			origin = fnName(o)
+		}
+		ord := 0
+		allInstrs(fn, func(in ssa.Instruction) {
+			var x ssa.Value
+			what := ""
+			switch y := in.(type) {
+			case *ssa.Call:
+				if objName(calleeObj(y)) != "chess.(BitBoard).LowestSet" {
+					return
+				}
+				x, what = y.Call.Args[0], "LowestSet"
+			case *ssa.BinOp:
+				of, ok := isIsolate(y)
+				if !ok {
+					return
+				}
+				x, what = of, "x & -x"
+			default:
+				return
+			}
+			ord++
+			key := fmt.Sprintf("%s#scan@%d", origin, ord)
+			if done[key] {
+				return
+			}
+			done[key] = true
+			n++
+			x = stripConv(x)
+			// (a) strip loop
+			if ph, ok := x.(*ssa.Phi); ok {
+				strips := false
+				for _, e := range ph.Edges {
+					if isStrip(e, ph) {
+						strips = true
+					}
+				}
+				untilEmpty := false
+				if len(ph.Block().Instrs) > 0 {
+					if iff, ok := ph.Block().Instrs[len(ph.Block().Instrs)-1].(*ssa.If); ok {
+						if bo, ok := iff.Cond.(*ssa.BinOp); ok && (bo.Op == token.NEQ || bo.Op == token.EQL) && stripConv(bo.X) == ssa.Value(ph) {
+							if k, isc := constOf(bo.Y); isc && k == 0 {
+								untilEmpty = true
+							}
+						}
+					}
+				}
+				if strips && untilEmpty {
+					c.Ok(rule, key, in.Pos(), "%s inside a loop that strips the scanned bit and runs until the set is empty: every piece is visited", what)
+					return
+				}
+			}
+			// (b) single bit
+			if singleBit(x, in.Block()) {
+				c.Ok(rule, key, in.Pos(), "%s on a set that holds exactly one bit (king / isolated bit / tested with IsPow2 or x&(x-1)==0)", what)
+				return
+			}
+			// (c) the knight+bishop mate special case: entered only when the material test has established single pieces
+			if origin == "eval.(*scorePair).KNBvK" {
+				if guardedBy(fn, "eval.KNBvK") {
+					c.Ok(rule, key, in.Pos(), "%s in the KNB-v-K special case, entered only under eval.KNBvK(b) (one knight, one bishop)", what)
+				} else {
+					c.Undec(rule, key, in.Pos(), "%s in the KNB-v-K special case, but not every call site is guarded by eval.KNBvK(b)", what)
+				}
+				return
+			}
+			if colourCond(in.Block()) {
+				c.Undec(rule, key, in.Pos(), "%s on a set that may hold several pieces, in colour-specific code: cannot decide whether the choice is mirrored for the other colour", what)
+				return
+			}
+			c.Fail(rule, key, in.Pos(), "%s picks the piece on the lowest square of a set that may hold several pieces, outside a loop that visits them all: mirroring the board reverses the rank order, so a position and its mirror image pick different pieces and can be scored differently", what)
+		})
+	}
+	c.Floor(rule, n, 3, "bit scans in package eval")
 }
